@@ -50,6 +50,8 @@ import PyElf.Proofs.RelocEdge
 import PyElf.Proofs.RelocFile
 import PyElf.Proofs.RelocExamples
 import PyElf.Props.TieC08
+import PyElf.Model.RelrCache
+import PyElf.Proofs.SigCache
 import PyElf.Props.C01
 namespace PyElf.Props.C08
 open PyElf PyElf.Spec PyElf.Spec.RelocDyn PyElf.Spec.C08 PyElf.Model PyElf.Model.Reloc PyElf.Model.C08 PyElf.Proofs PyElf.Proofs.Reloc
@@ -119,6 +121,51 @@ theorem relr_bitmap_eq_std (base w word : Nat) (hw : 1 ≤ w) (h : word < 2 ^ (8
   have hb := relrBitmapLoop_eq base w (8 * w - 1) word 0 (by rw [show 8 * w - 1 + 1 = 8 * w by omega]; exact h)
   rw [show 8 * w - 1 + 1 = 8 * w by omega] at hb
   rw [hb]; simp [relrBitmap]
+
+/-! ### the RELR cache (`_cached_relocations`) -/
+
+/-- `relrFresh` in the cache machine's vocabulary -/
+theorem relr_fresh_eq (env : Env) (data : Bytes) (t : RelrTable) (q : RelrQ) :
+    Model.SigCache.stateless (relrScan env data t) relrLook q = relrFresh env data t q := by
+  unfold Model.SigCache.stateless relrScan relrFresh
+  cases relrIter env data t <;> rfl
+
+/--
+  relr_cache_history_independent.  `num_relocations()` / `get_relocation(n)` answer from the lazily built
+  `_cached_relocations`.  For ANY table (any bytes, well formed or not) and after ANY history of such queries on one
+  object — repeated, out of range, negative, after an expansion that raised — every answer is the one a freshly made
+  table object gives, i.e. the query evaluated on `list(iter_relocations())` (`relrIter`, the function `relr_eq_std`
+  is about).  The driver runs exactly this `relrHist`, and the harness compares it with the library's answers on one
+  object and with `_cached_relocations is not None`.
+-/
+theorem relr_cache_history_independent (env : Env) (data : Bytes) (t : RelrTable) (qs : List RelrQ) :
+    (relrHist env data t qs).1 = qs.map (relrFresh env data t) := by
+  unfold relrHist
+  rw [(Proofs.SigCache.run_answers (relrScan env data t) relrLook qs _ (Proofs.SigCache.inv_init _)).1]
+  exact List.map_congr_left (fun q _ => relr_fresh_eq env data t q)
+
+/-- the cache is published exactly when a query happened and the expansion returns -/
+theorem relr_cache_published_iff (env : Env) (data : Bytes) (t : RelrTable) (qs : List RelrQ) :
+    (relrHist env data t qs).2.map.isSome = (!qs.isEmpty && (relrIter env data t).isOk) := by
+  unfold relrHist
+  rw [Proofs.SigCache.run_published]
+  unfold relrScan
+  cases relrIter env data t <;> rfl
+
+/-- with `relr_eq_std`: on every well-formed RELR stream, after any history of queries, the count is the number of
+    addresses the standard's expansion yields and `get_relocation(n)` is its n-th address (Python indexing) -/
+theorem relr_cache_exact (cfg : ElfCfg) (hcls : cfg.cls = 32 ∨ cfg.cls = 64) (env : Env) (ws : List Nat)
+    (hws : ∀ x ∈ ws, x < 2 ^ cfg.cls) (pre rest : Bytes) (hfit : pre.length + ws.length * (cfg.cls / 8) ≤ 2 ^ 63)
+    (xs : List Nat) (hstd : relrStd (cfg.cls / 8) none ws = some xs) (qs : List RelrQ) :
+    ∃ t, relrInit (Spec.elfStructs cfg) (some pre.length) (encRelr cfg.le (cfg.cls / 8) ws).length (cfg.cls / 8) = .ok t ∧
+      (relrHist env (pre ++ encRelr cfg.le (cfg.cls / 8) ws ++ rest) t qs).1 = qs.map (fun q => relrLook xs q) := by
+  obtain ⟨t, ht, hiter⟩ := relr_eq_std cfg hcls env ws hws pre rest hfit
+  refine ⟨t, ht, ?_⟩
+  rw [relr_cache_history_independent]
+  apply List.map_congr_left
+  intro q _
+  unfold relrFresh
+  rw [hiter, hstd]
 
 /-- RELR entry-size guard -/
 theorem relr_entsize_guard (cfg : ElfCfg) (off : Option Nat) (size ent : Nat) (h : ent ≠ cfg.cls / 8) :
